@@ -311,11 +311,42 @@ impl<'a> G<'a> {
         };
         let mut m = Map::new();
         for _ in 0..n {
-            let name = self.string(true);
+            let mut name = self.string(true);
+            if self.r.chance(4) {
+                // nested members that merely share their name with a registered JWT claim are
+                // ordinary claims (only the TOP-LEVEL iss / iat / exp are always visible)
+                let reg = *self.r.pick(&["iss", "iat", "exp", "sub", "nbf", "aud", "cnf", "jti"]);
+                if !m.contains_key(reg) {
+                    name = reg.to_string();
+                }
+            }
             let v = self.value(depth);
             m.insert(name, v);
         }
+        self.prefix_sibling(&mut m);
         Value::Object(m)
+    }
+
+    /// Occasionally add a sibling whose name is another sibling's name followed by the name of
+    /// one of that sibling's children ("birth": {"date": ..} next to "birthdate"): names that are
+    /// proper prefixes of each other must not confuse path-based strategies.
+    fn prefix_sibling(&mut self, m: &mut Map<String, Value>) {
+        if !self.r.chance(8) {
+            return;
+        }
+        let cand: Vec<(String, String, Value)> = m
+            .iter()
+            .filter_map(|(k, v)| v.as_object().and_then(|o| o.iter().next()).map(|(c, cv)| (k.clone(), c.clone(), cv.clone())))
+            .collect();
+        if cand.is_empty() {
+            return;
+        }
+        let (k, c, cv) = self.r.pick(&cand).clone();
+        let name = format!("{k}{c}");
+        if !m.contains_key(&name) && !k.is_empty() && !c.is_empty() {
+            let v = if self.r.chance(50) { cv } else { self.leaf() };
+            m.insert(name, v);
+        }
     }
 
     fn array(&mut self, depth: u32) -> Value {
@@ -396,6 +427,7 @@ pub fn gen_claims(r: &mut Rng, cfg: &GenCfg) -> Value {
     for (k, v) in entries {
         m.insert(k, v);
     }
+    g.prefix_sibling(&mut m);
     Value::Object(m)
 }
 
